@@ -9,4 +9,5 @@ CONSTANTS
 INVARIANT TypeOK
 INVARIANT RefPartial
 INVARIANT ImplAgrees
+INVARIANT StepsAreImplCall
 CHECK_DEADLOCK FALSE
